@@ -78,6 +78,23 @@ def run(ck, m):
     _run(ck, m)
     framing_rule(ck, m)
     permission_parser_rule(ck, m)
+    # a grant `prefix*` / `*suffix` is matched by the same selector and matchers the key listing uses: their table is C01.c's, its
+    # verdict is repeated here because a matcher that accepts more (a key shorter than the prefix) widens every grant
+    from nl import report
+    from props import C01
+    ck.rule('C09.g', 'permission patterns are matched by the selector table x* -> prefix, *x -> suffix, otherwise contains (C01.c '
+                     'pattern-table): a wider matcher widens every grant')
+    tmp = report.Check('C01', 'quick', 0)
+    try:
+        C01.run(tmp, m)
+    except Exception as e:      # fail closed
+        ck.undecided('C09.g', 'pattern-selector', 'table', 'C01.c could not be evaluated: %s' % e)
+    n_ = 0
+    for o in tmp.obs:
+        if o['rule'] == 'C01.c' and (o['key'].endswith(':pattern-table') or 'pattern-selector' in o['key']):
+            n_ += 1
+            ck.ob('C09.g', o['key'].split(':')[1], 'pattern-table', o['verdict'] == 'discharged', o['what'], o['loc'], verdict=o['verdict'])
+    ck.floor('C09.g', n_, 1, 'pattern selector tables')
 
 
 def _run(ck, m):
